@@ -179,6 +179,13 @@ class Gen:
             return self.r.choice(["True", "False", "None", "..."])
         return "-" + self.r.choice(NUM_LITS[:9] + ["True", "'a'", "x", "-1", "b\"it's\""])
 
+    def sep(self):
+        """Separator of the items of a bracketed construct: now and then a line break after the comma, so that
+        the parts of one construct lie on several lines (the flat AST does not list them in source order)."""
+        if self.r.random() < 0.15:
+            return ",\n" + " " * self.r.randint(0, 6)
+        return ", "
+
     def wide(self):
         """Occasionally a list with 10-13 children: multi-digit child numbers in the paths."""
         return self.r.random() < 0.06
@@ -208,7 +215,7 @@ class Gen:
             parts.append(f"{a}for {self.target(1)} in {self.expr(d, simple=True)}")
             for _ in range(self.r.randint(0, 2)):
                 parts.append(f"if {self.expr(d, simple=True)}")
-        return " ".join(parts)
+        return (" " if self.r.random() < 0.8 else "\n   ").join(parts)
 
     def fstring(self, d):
         out = []
@@ -251,17 +258,17 @@ class Gen:
                 args.append(f"{self.ident()}={self.expr(d)}")
             if self.r.random() < 0.2:
                 args.append("**" + self.expr(d, simple=True))
-            return f"{self.expr(d, simple=True)}({', '.join(args)})"
+            return f"{self.expr(d, simple=True)}({self.sep().join(args)})"
         if k == 5:
             return f"{self.expr(d, simple=True)}.{self.ident()}"
         if k == 6:
             sl = self.r.choice(["{0}", "{0}:{1}", ":{0}", "{0}:", "::{0}", "{0}:{1}:{0}", "{0}, {1}", ":", "{0}:{1}, ::{0}", "-1", "-{0}"])
             return f"{self.expr(d, simple=True)}[{sl.format(self.expr(d), self.expr(d))}]"
         if k == 7:
-            return "[" + ", ".join(self.exprs(d)) + "]"
+            return "[" + self.sep().join(self.exprs(d)) + "]"
         if k == 8:
             xs = self.exprs(d)
-            return "(" + ", ".join(xs) + ("," if len(xs) == 1 else "") + ")"
+            return "(" + self.sep().join(xs) + ("," if len(xs) == 1 else "") + ")"
         if k == 9:
             return self.atom()
         if k == 10:
@@ -272,9 +279,9 @@ class Gen:
             items = [f"{self.expr(d)}: {self.expr(d)}" for _ in range(self.r.randint(0, 3))]
             if self.r.random() < 0.3:
                 items.append("**" + self.expr(d, simple=True))
-            return "{" + ", ".join(items) + "}"
+            return "{" + self.sep().join(items) + "}"
         if k == 13:
-            return "{" + ", ".join(self.exprs(d, 1, 3)) + "}"
+            return "{" + self.sep().join(self.exprs(d, 1, 3)) + "}"
         if k == 14:
             return f"({self.expr(d)} if {self.expr(d)} else {self.expr(d)})"
         if k == 15:
@@ -313,6 +320,15 @@ class Gen:
 
         names = self.r.sample(["a", "b", "c", "d", "e", "f", "g", "h"], 8)
         out = []
+        if self.r.random() < 0.1:
+            # defaults before `*args` / keyword-only parameters, one parameter per line: the flat AST lists the
+            # default values (`defaults`) after `vararg`, `kwonlyargs` and `kw_defaults`
+            out = [p(names.pop(), default=True) for _ in range(self.r.randint(1, 2))]
+            out.append(self.r.choice(["*" + names.pop(), "*"]))
+            out.append(p(names.pop(), default=self.r.random() < 0.6))
+            if self.r.random() < 0.3:
+                out.append("**" + names.pop())
+            return (",\n" + " " * self.r.randint(0, 8)).join(out)
         if self.r.random() < 0.3:
             n = self.r.randint(1, 2)
             out += [p(names.pop()) for _ in range(n)] + ["/"]
@@ -330,7 +346,11 @@ class Gen:
             out.append(p(names.pop(), default=self.r.random() < 0.5))
         if self.r.random() < 0.3:
             out.append("**" + p(names.pop()))
-        return ", ".join(out)
+        sep = self.sep() if self.r.random() < 0.5 else ", "
+        if "\n" in sep or self.r.random() < 0.85:
+            return sep.join(out)
+        # each parameter on its own line
+        return ",\n    ".join(out)
 
     def type_params(self):
         if self.r.random() < 0.8:
@@ -464,12 +484,14 @@ class Gen:
             bases = self.exprs(0, 0, 2)  # (10-13 bases when `wide`)
             if r.random() < 0.3:
                 bases.append(f"metaclass={self.ident()}")
-            out.append(I + f"class {self.ident()}{self.type_params()}" + (f"({', '.join(bases)})" if bases or r.random() < 0.3 else "") + ":")
+            out.append(I + f"class {self.ident()}{self.type_params()}" + (f"({self.sep().join(bases)})" if bases or r.random() < 0.3 else "") + ":")
             return out + self.block(d, ind + 1)
         if k == 25:
             a = "async " if r.random() < 0.2 else ""
-            items = ", ".join(f"{e(True)}" + (f" as {self.target(1)}" if r.random() < 0.6 else "") for _ in range(r.randint(1, 2)))
-            return [I + f"{a}with {items}:"] + self.block(d, ind + 1)
+            items = [f"{e(True)}" + (f" as {self.target(1)}" if r.random() < 0.6 else "") for _ in range(r.randint(1, 2))]
+            if r.random() < 0.2:
+                return [I + f"{a}with ({(',' + chr(10) + '   ').join(items)}):"] + self.block(d, ind + 1)
+            return [I + f"{a}with {', '.join(items)}:"] + self.block(d, ind + 1)
         if k in (26, 27):
             star = "*" if r.random() < 0.2 else ""
             out = [I + "try:"] + self.block(d, ind + 1, 1, 2)
